@@ -330,10 +330,12 @@ class Env:
             return [(v, (self._fresh(), self._fresh())) for v in vals]
         raise ValueError(kind)
 
-    def cm(self, site):
+    def cm(self, site, *deps):
         swallow = self._draw() % 2
         v = self._fresh()
-        self._step("cm", site, [v, swallow])
+        # (what the manager was made from -- the target of an earlier item of the same with
+        # statement -- is part of what the environment sees)
+        self._step("cm", site, [v, swallow] + [canon(d) for d in deps])
         return EnvCM(self, site, v, swallow)
 
     def pt(self, site):
